@@ -259,7 +259,7 @@ int main(int argc, char **argv)
   econf_setStringValue(partner, "A", "x", "P"); econf_setStringValue(partner, NULL, "n", "P"); econf_setStringValue(partner, "B", "y", "P");
   if (mode == 0) {
     /* values on purpose: mixed-case boolean words, non-boolean text, numbers in several notations, blanks, empty */
-    e2_val[0] = "Yes Please"; e2_val[1] = "TRUE"; e2_val[2] = "0x10"; e2_val[3] = " 7"; e2_val[4] = ""; e2_val[5] = "No"; e2_nval = 6;
+    e2_val[0] = "Yes Please"; e2_val[1] = "TRUE"; e2_val[2] = "0x10"; e2_val[3] = " 7 " /* blanks at both ends: a stored value is not trimmed by looking at it */; e2_val[4] = ""; e2_val[5] = "No"; e2_nval = 6;
     /* --p3 = 1: numbers at the edges of the types instead - getters that succeed or fail with ERANGE inside, infinities */
     if (mc_opt.param[3] == 1) { e2_val[0] = "inf"; e2_val[1] = "1e300"; e2_val[2] = "99999999999999999999"; e2_val[3] = "1e-320"; e2_val[4] = "-inf";
       /* text a getter might want to normalise before converting (decimal comma, a list): the failing conversion has to leave it alone too */
